@@ -3,7 +3,7 @@ import os
 
 import numpy as np
 
-from build import BOOL, DICT, DT, EN, F, I, L, NOJ, R, S, SETUP, Prog
+from build import BOOL, DICT, DT, EN, F, I, L, NOJ, NP, R, S, SETUP, Prog
 from objgen import ENUM_MEMBERS, ORDER, add_all_classes, ident, make_kwargs, text, value_for, with_units
 from objmodel import CLASSES
 from scen import DTYPES, rand_array, rand_name, rng_for, simple_file
@@ -448,6 +448,44 @@ def gen_C05(tier, seed):
         c = p.channel(lf, 'CH', data=np.arange(3, dtype='float64'))
         p.frame(lf, 'FR', [c])
         p.write(1)
+        progs.append(p.build())
+    # FRAME ENCRYPTED takes booleans, 0/1 numbers and yes/no words
+    for i, v in enumerate([BOOL(True), BOOL(False), I(1), F(0.0), NOJ(S('yes')), NOJ(S('F')), NOJ(S('maybe')), NOJ(I(2))]):
+        p = Prog(f'C05-encrypted-{i}', {'kind': 'encrypted'})
+        lf, o = base_lf(p)
+        c = p.channel(lf, 'CH', data=np.arange(3, dtype='float64'))
+        p.frame(lf, 'FR', [c], encrypted=v)
+        if i >= 4:      # refused by add_frame: a frame is still needed
+            c2 = p.channel(lf, 'CH2', data=np.arange(3, dtype='float64'))
+            p.frame(lf, 'FR2', [c2])
+        p.write(1)
+        progs.append(p.build())
+    # numpy scalars as attribute values (alone, in lists of one dtype, in lists of several dtypes of one family)
+    npsets = [('one-f4', [NP('float32', 1.5)]), ('one-f8', [NP('float64', 2.25)]), ('one-i2', [NP('int16', -3)]), ('one-u1', [NP('uint8', 200)]),
+              ('list-i2', [NP('int16', -3), NP('int16', 4)]), ('list-u4', [NP('uint32', 4000000000), NP('uint32', 1)]),
+              ('mix-float', [NP('float32', 1.5), NP('float64', 2.25)]), ('mix-sint', [NP('int8', 1), NP('int32', 70000)]),
+              ('mix-uint', [NP('uint8', 1), NP('uint16', 300)])]
+    for i, (tag, vals) in enumerate(npsets):
+        p = Prog(f'C05-numpy-{tag}', {'kind': 'numpyvalues', 'tag': tag})
+        lf, o = base_lf(p)
+        c = p.channel(lf, 'CH', data=np.arange(3, dtype='float64'))
+        p.frame(lf, 'FR', [c])
+        p.add(lf, 'axis', 'AX', coordinates=L(*vals), spacing=vals[0])
+        p.add(lf, 'parameter', 'PAR', values=L(vals[0]))
+        eq = p.add(lf, 'equipment', 'EQ', height=SETUP(vals[0], S('m')))
+        p.set(eq, 'weight', vals[-1])
+        p.add(lf, 'calibration_coefficient', 'CC', coefficients=L(*vals), references=L(*vals))
+        p.write(1)
+        progs.append(p.build())
+    # lists mixing families (python int and float, signed and unsigned, float and integer numpy scalars): refused or faithful
+    for i, vals in enumerate([[I(1), F(2.5)], [F(2.5), I(1)], [NP('int8', -1), NP('uint32', 4000000000)], [NP('uint8', 1), NP('float32', 2.5)],
+                              [NP('float32', 1.5), NP('int8', 1)], [I(1), NP('int16', 2)], [F(1.0), NP('float32', 2.0)]]):
+        p = Prog(f'C05-mixed-{i}', {'kind': 'mixedvalues', 'fringe': True})
+        lf, o = base_lf(p)
+        c = p.channel(lf, 'CH', data=np.arange(3, dtype='float64'))
+        p.frame(lf, 'FR', [c])
+        p.add(lf, 'axis', 'AX', coordinates=L(*vals))
+        p.write(1, valid=False, either=True)
         progs.append(p.build())
     # the kind of a value changes after a file was written (text, integer, float, date-time, reference): the second file
     # carries the code of the value it holds, not of the one written before
